@@ -167,6 +167,19 @@ theorem settle_fairBurn (bk : WlMembers.Bank) (self fee : Nat) :
   simp only [Except.ok.injEq, WlMembers.Bank.mk.injEq, and_true]
   omega
 
+/-- C11's `execIncreaseLimit` when every step succeeds (generic in the aspect state) -/
+theorem execIncr_ok {P : WlMembers.WL} {funds : List Coin} {limit payment : Nat} {msgs : List Msg} {bank : WlMembers.Bank}
+    (hdel : WlMembers.deliverable funds = true)
+    (hlim : (decide (P.memberLimit ≥ limit) || decide (limit > P.kind.maxMembers)) = false)
+    (hpay : mayPay funds NATIVE = .ok payment) (hfee : payment = WlMembers.upgradeFee P.kind P.memberLimit limit)
+    (hm : (if WlMembers.upgradeFee P.kind P.memberLimit limit > 0
+            then Sg1.checkedFairBurn funds P.self (WlMembers.upgradeFee P.kind P.memberLimit limit) none else .ok []) = .ok msgs)
+    (hs : WlMembers.settle P.bank payment msgs = .ok bank) :
+    WlMembers.execIncreaseLimit P true funds limit =
+      .ok { P with memberLimit := limit, bank := bank, feesPaid := P.feesPaid + payment } := by
+  have hne : ¬ payment ≠ WlMembers.upgradeFee P.kind P.memberLimit limit := fun h => h hfee
+  simp only [WlMembers.execIncreaseLimit, Bool.not_true, Bool.false_eq_true, if_false, hdel, hlim, hpay, hne, hm, hs]
+
 theorem incr_corr_ok (d : Denom) (hd : d ≠ NATIVE) {b b1 : Bank} {w w' : Wl} (hv : w.v.store = .list) {sender : Addr}
     {funds : List Coin} {limit : Nat} {msgs : List Msg}
     (hb : b.sendFunds sender w.self funds = some b1) (hs : sender ≠ w.self) (hp : w.self ≠ FAIRBURN_POOL)
@@ -179,6 +192,10 @@ theorem incr_corr_ok (d : Denom) (hd : d ≠ NATIVE) {b b1 : Bank} {w w' : Wl} (
   split at h
   · cases h
   · rename_i hlim
+    have hlim' : (decide (w.memberLimit ≥ limit) || decide (limit > w.v.kind11.maxMembers)) = false := by
+      cases hx : (decide (w.memberLimit ≥ limit) || decide (limit > w.v.kind11.maxMembers))
+      · rfl
+      · exact absurd hx hlim
     split at h
     · cases h
     · rename_i payment hpay
@@ -195,35 +212,179 @@ theorem incr_corr_ok (d : Denom) (hd : d ≠ NATIVE) {b b1 : Bank} {w w' : Wl} (
         have hbald := sendFunds_bal hb hs d
         rw [hsum0] at hbal0
         rw [hsumd d hd] at hbald
-        simp only [WlMembers.execIncreaseLimit, Bool.not_true, Bool.false_eq_true, if_false, hdel, proj11, hpay, hfee]
-        have hlim' : (decide (w.memberLimit ≥ limit) || decide (limit > w.v.kind11.maxMembers)) = false := by
-          cases hx : (decide (w.memberLimit ≥ limit) || decide (limit > w.v.kind11.maxMembers))
-          · rfl
-          · exact absurd hx hlim
-        simp only [hlim', Bool.false_eq_true, if_false]
-        by_cases hpos : WlMembers.upgradeFee w.v.kind11 w.memberLimit limit > 0
-        · rw [if_pos hpos] at h
-          simp only [hpos, if_true]
-          have hchk : Sg1.checkedFairBurn funds w.self (WlMembers.upgradeFee w.v.kind11 w.memberLimit limit) none =
-              .ok (Sg1.fairBurn w.self (WlMembers.upgradeFee w.v.kind11 w.memberLimit limit) none) := by
-            rw [← hfee']; exact WlMembers.checkedFairBurn_exact hpay (by omega)
-          rw [hchk] at h ⊢
+        split at h
+        · cases h
+        · rename_i msgs0 hm
           simp only [Except.ok.injEq, Prod.mk.injEq] at h
           obtain ⟨rfl, rfl⟩ := h
-          have h2 := upgradeFee_pos (price_list hv) hpos
-          obtain ⟨b2, ha, hb0, hbd⟩ := fairBurn_apply (b := b1) (self := w.self) h2 (by omega) hp
-          refine ⟨b2, ha, ?_⟩
-          rw [hfee', settle_fairBurn]
-          simp only [Ghost.fee, fairBurn_burned, fairBurn_pooled, hb0, hbd d hd, hbal0, hbald, Except.ok.injEq,
-            WlMembers.WL.mk.injEq, WlMembers.Bank.mk.injEq, and_true, true_and]
-          omega
-        · rw [if_neg hpos] at h
-          simp only [hpos, if_false]
-          simp only [Except.ok.injEq, Prod.mk.injEq] at h
-          obtain ⟨rfl, rfl⟩ := h
-          have hz : payment = 0 := by omega
-          refine ⟨b1, rfl, ?_⟩
-          simp only [WlMembers.settle, WlMembers.applyMsgs, Ghost.fee, Sg1.burnedBy, Sg1.sentTo, hbal0, hbald, hz,
-            Except.ok.injEq, WlMembers.WL.mk.injEq, WlMembers.Bank.mk.injEq, and_true, true_and, Nat.add_zero]
+          by_cases hpos : WlMembers.upgradeFee w.v.kind11 w.memberLimit limit > 0
+          · have hchk : Sg1.checkedFairBurn funds w.self (WlMembers.upgradeFee w.v.kind11 w.memberLimit limit) none =
+                .ok (Sg1.fairBurn w.self (WlMembers.upgradeFee w.v.kind11 w.memberLimit limit) none) := by
+              rw [← hfee']; exact WlMembers.checkedFairBurn_exact hpay (by omega)
+            have hm' := hm
+            rw [if_pos hpos, hchk] at hm'
+            simp only [Except.ok.injEq] at hm'
+            have h2 := upgradeFee_pos (price_list hv) hpos
+            obtain ⟨b2, ha, hb0, hbd⟩ := fairBurn_apply (b := b1) (self := w.self) h2 (by omega) hp
+            refine ⟨b2, by rw [← hm']; exact ha, ?_⟩
+            have hset := settle_fairBurn (proj11 d b w).bank w.self (WlMembers.upgradeFee w.v.kind11 w.memberLimit limit)
+            rw [execIncr_ok (P := proj11 d b w) hdel hlim' hpay hfee' hm (by rw [← hm', hfee']; exact hset)]
+            subst hm'
+            simp only [proj11, Ghost.fee, fairBurn_burned, fairBurn_pooled, hb0, hbd d hd, hbal0, hbald, Except.ok.injEq,
+              WlMembers.WL.mk.injEq, WlMembers.Bank.mk.injEq, and_true, true_and]
+            omega
+          · have hm' := hm
+            rw [if_neg hpos] at hm'
+            simp only [Except.ok.injEq] at hm'
+            have hz : payment = 0 := by omega
+            refine ⟨b1, by rw [← hm']; rfl, ?_⟩
+            rw [execIncr_ok (P := proj11 d b w) (bank := (proj11 d b w).bank) hdel hlim' hpay hfee' hm
+              (by rw [← hm', hz]; simp [WlMembers.settle, WlMembers.applyMsgs])]
+            subst hm'
+            simp only [proj11, Ghost.fee, Sg1.burnedBy, Sg1.sentTo, hbal0, hbald, hz,
+              Except.ok.injEq, WlMembers.WL.mk.injEq, WlMembers.Bank.mk.injEq, and_true, true_and, Nat.add_zero]
+
+/-- inversion of C11's `execIncreaseLimit` (generic in the aspect state) -/
+theorem execIncr_inv {P P' : WlMembers.WL} {al : Bool} {funds : List Coin} {limit : Nat}
+    (h : WlMembers.execIncreaseLimit P al funds limit = .ok P') :
+    al = true ∧ (decide (P.memberLimit ≥ limit) || decide (limit > P.kind.maxMembers)) = false ∧
+    ∃ payment msgs, mayPay funds NATIVE = .ok payment ∧ payment = WlMembers.upgradeFee P.kind P.memberLimit limit ∧
+      (if WlMembers.upgradeFee P.kind P.memberLimit limit > 0
+        then Sg1.checkedFairBurn funds P.self (WlMembers.upgradeFee P.kind P.memberLimit limit) none else .ok []) = .ok msgs := by
+  unfold WlMembers.execIncreaseLimit at h
+  split at h
+  · cases h
+  · rename_i hal
+    split at h
+    · cases h
+    · split at h
+      · cases h
+      · rename_i hlim
+        simp only [] at h
+        split at h
+        · cases h
+        · rename_i payment hpay
+          split at h
+          · cases h
+          · rename_i hfee
+            split at h
+            · cases h
+            · rename_i msgs hm
+              refine ⟨by simpa using hal, ?_, payment, msgs, hpay, ?_, hm⟩
+              · cases hx : (decide (P.memberLimit ≥ limit) || decide (limit > P.kind.maxMembers))
+                · rfl
+                · exact absurd hx hlim
+              · rcases Nat.lt_trichotomy payment (WlMembers.upgradeFee P.kind P.memberLimit limit) with h1 | h1 | h1
+                · exact absurd (Nat.ne_of_lt h1) hfee
+                · exact h1
+                · exact absurd (Nat.ne_of_gt h1) hfee
+
+theorem incr_corr_err (d : Denom) (b : Bank) {w : Wl} {funds : List Coin} {limit : Nat} {e : Err} (al : Bool)
+    (h : increaseMemberLimit w funds limit = .error e) :
+    ∃ e', WlMembers.execIncreaseLimit (proj11 d b w) al funds limit = .error e' := by
+  cases hc : WlMembers.execIncreaseLimit (proj11 d b w) al funds limit with
+  | error e' => exact ⟨e', rfl⟩
+  | ok P' =>
+    exfalso
+    obtain ⟨_, hlim, payment, msgs, hpay, hfee, hm⟩ := execIncr_inv hc
+    have hlim' : (decide (w.memberLimit ≥ limit) || decide (limit > w.v.kind11.maxMembers)) = false := hlim
+    have hfee' : payment = WlMembers.upgradeFee w.v.kind11 w.memberLimit limit := hfee
+    have hm' : (if WlMembers.upgradeFee w.v.kind11 w.memberLimit limit > 0
+        then Sg1.checkedFairBurn funds w.self (WlMembers.upgradeFee w.v.kind11 w.memberLimit limit) none else .ok []) = .ok msgs := hm
+    have hne : ¬ payment ≠ WlMembers.upgradeFee w.v.kind11 w.memberLimit limit := fun x => x hfee'
+    simp only [increaseMemberLimit, hlim', Bool.false_eq_true, if_false, hpay, hne, hm'] at h
+    cases h
+
+/-! ## frame: the messages C11 does not name leave its projection alone; no handler moves the contract -/
+
+theorem updateStartTime_frame {w w' : Wl} {now : Nat} {sender : Addr} {t : Nat} (h : updateStartTime w now sender t = .ok w')
+    (d : Denom) (b : Bank) : proj11 d b w' = proj11 d b w ∧ w'.self = w.self := by
+  unfold updateStartTime at h
+  split at h; · cases h
+  split at h; · cases h
+  split at h; · cases h
+  simp only [Except.ok.injEq] at h; subst h; exact ⟨rfl, rfl⟩
+
+theorem updateEndTime_frame {w w' : Wl} {now : Nat} {sender : Addr} {t : Nat} (h : updateEndTime w now sender t = .ok w')
+    (d : Denom) (b : Bank) : proj11 d b w' = proj11 d b w ∧ w'.self = w.self := by
+  unfold updateEndTime at h
+  split at h; · cases h
+  split at h; · cases h
+  split at h; · cases h
+  simp only [Except.ok.injEq] at h; subst h; exact ⟨rfl, rfl⟩
+
+theorem updatePerAddressLimit_frame {w w' : Wl} {sender : Addr} {n : Nat} (h : updatePerAddressLimit w sender n = .ok w')
+    (d : Denom) (b : Bank) : proj11 d b w' = proj11 d b w ∧ w'.self = w.self := by
+  unfold updatePerAddressLimit at h
+  split at h; · cases h
+  split at h; · cases h
+  simp only [Except.ok.injEq] at h; subst h; exact ⟨rfl, rfl⟩
+
+theorem updateAdmins_frame {w w' : Wl} {sender : Addr} {l : List Addr} (h : updateAdmins w sender l = .ok w')
+    (d : Denom) (b : Bank) : proj11 d b w' = proj11 d b w ∧ w'.self = w.self := by
+  unfold updateAdmins at h
+  split at h; · cases h
+  split at h; · cases h
+  simp only [Except.ok.injEq] at h; subst h; exact ⟨rfl, rfl⟩
+
+theorem freeze_frame {w w' : Wl} {sender : Addr} (h : freeze w sender = .ok w')
+    (d : Denom) (b : Bank) : proj11 d b w' = proj11 d b w ∧ w'.self = w.self := by
+  unfold freeze at h
+  split at h; · cases h
+  simp only [Except.ok.injEq] at h; subst h; exact ⟨rfl, rfl⟩
+
+theorem updateStageConfig_frame {w w' : Wl} {sender : Addr} {u : StageUpdate} (h : updateStageConfig w sender u = .ok w')
+    (d : Denom) (b : Bank) : proj11 d b w' = proj11 d b w ∧ w'.self = w.self := by
+  unfold updateStageConfig at h
+  split at h; · cases h
+  split at h; · cases h
+  simp only [] at h
+  split at h; · cases h
+  simp only [Except.ok.injEq] at h; subst h; exact ⟨rfl, rfl⟩
+
+theorem addMembers_self {w w' : Wl} {sender : Addr} {stage : Nat} {ms : List Member} (h : addMembers w sender stage ms = .ok w') :
+    w'.self = w.self ∧ w'.v = w.v := by
+  unfold addMembers at h
+  split at h; · cases h
+  simp only [] at h
+  split at h
+  · split at h; · cases h
+    split at h; · cases h
+    simp only [Except.ok.injEq] at h; subst h; exact ⟨rfl, rfl⟩
+  · split at h; · cases h
+    simp only [Except.ok.injEq] at h; subst h; exact ⟨rfl, rfl⟩
+
+theorem removeMembers_self {w w' : Wl} {now : Nat} {sender : Addr} {stage : Nat} {as : List Addr}
+    (h : removeMembers w now sender stage as = .ok w') : w'.self = w.self ∧ w'.v = w.v := by
+  unfold removeMembers at h
+  split at h; · cases h
+  split at h; · cases h
+  split at h; · cases h
+  split at h
+  · split at h; · cases h
+    split at h; · cases h
+    simp only [Except.ok.injEq] at h; subst h; exact ⟨rfl, rfl⟩
+  · split at h; · cases h
+    simp only [Except.ok.injEq] at h; subst h; exact ⟨rfl, rfl⟩
+
+theorem addStage_self {w w' : Wl} {now : Nat} {sender : Addr} {st : Stage} {ms : List Member}
+    (h : addStage w now sender st ms = .ok w') : w'.self = w.self ∧ w'.v = w.v := by
+  unfold addStage at h
+  split at h; · cases h
+  split at h; · cases h
+  simp only [] at h
+  split at h; · cases h
+  split at h; · cases h
+  simp only [Except.ok.injEq] at h; subst h; exact ⟨rfl, rfl⟩
+
+theorem removeStage_self {w w' : Wl} {now : Nat} {sender : Addr} {id : Nat}
+    (h : removeStage w now sender id = .ok w') : w'.self = w.self ∧ w'.v = w.v := by
+  unfold removeStage at h
+  split at h; · cases h
+  split at h; · cases h
+  split at h; · cases h
+  simp only [] at h
+  split at h; · cases h
+  simp only [Except.ok.injEq] at h; subst h; exact ⟨rfl, rfl⟩
 
 end LP.WF
